@@ -13,6 +13,8 @@ CLAIMS = {
          "Decides Clone completeness/alias-freedom and duplicate rejection structurally for every node type.", "4 C06"),
  "C11": ("allocation/registration ordering analysis of both converters (event order, non-nil keys, memo lookup)",
          "Decides the node-map laws for all inputs by induction over the converter cases.", "4 C11"),
+ "C12": ("cursor/position-store/line-table rules over the typed AST of the restorer (hand-written and generated), statement-order rule on RestoreFile, declaration-order rule against go/ast structs",
+         "Decides cursor monotonicity, that positions are cursor-or-NoPos, base-relative strictly growing line offsets, append-only comments, file registration covering all positions; rank equality with a re-parse is not decided. Two known findings (Extras post-pass, TypeSpec alias order).", "4 C12"),
  "C13": ("case-by-case comparison of dst.Walk with go/ast.Walk (GOROOT source) and the dst struct definitions",
          "Decides the whole statement by structural induction over Walk's cases.", "4 C13"),
  "C14": ("child-table agreement apply/Walk/struct + normal-form equality of the fork with astutil v0.1.12",
@@ -30,7 +32,7 @@ CLAIMS = {
 NOT_APPLICABLE = {
  "C10": "meaning preservation of moved code needs a type checker run over output programs; no static rule over dst's source bounds it (DESIGN.md 4, C10)",
 }
-PENDING = ["C02", "C05", "C07", "C08", "C09", "C12", "C15", "C18"]
+PENDING = ["C02", "C05", "C07", "C08", "C09", "C15", "C18"]
 
 props = [json.loads(l)["id"] for l in open("/verif/properties.jsonl")]
 checks = []
